@@ -63,12 +63,29 @@ def sweeper_class(kind):
     return {'impl': generic_implicit, 'imex': imex_1st_order, 'expl': explicit, 'multi': multi_implicit}[kind]
 
 
+def node_floats(L):
+    """node positions (floats) whose node TIMES dt*node have the images tn[m] in Z_p; distinct and increasing"""
+    M = L['M']
+    tn = L.get('tn') or [0] * M
+    if not any(L.get('g') or []):  # no forcing: the node positions do not matter
+        return [(m + 1) / M for m in range(M)]
+    inv_dt = pow(zp.hom(dt_float(L['dt'])), -1, zp.P)
+    out = []
+    for m in range(M):
+        want = (tn[m] * inv_dt) % zp.P
+        f = next(a / 2 ** e for e in range(0, 3) for a in range(0, 4 * zp.P + 1) if zp.hom(a / 2 ** e) == want)
+        out.append(f + float(zp.P) * (m + 1) * 4)
+    return out
+
+
 def level_description(L, kind):
     key = f'c{next(_counter)}'
     M = L['M']
-    zp.register_coeffs(key, nodes=[(m + 1) / M for m in range(M)], weights=list(L['w']), Q=[list(r) for r in L['Q']],
+    zp.register_coeffs(key, nodes=node_floats(L), weights=list(L['w']), Q=[list(r) for r in L['Q']],
                        QI=[list(r) for r in L['QI']], QE=[list(r) for r in L['QE']], QIK=[[list(r) for r in q] for q in L.get('QIK', [])])
-    swp = dict(num_nodes=M, quad_type='RADAU-RIGHT' if L['rightnode'] else 'GAUSS', node_type='ZP:' + key,
+    quad = {(True, False): 'RADAU-RIGHT', (True, True): 'LOBATTO', (False, True): 'RADAU-LEFT', (False, False): 'GAUSS'}[
+        (bool(L['rightnode']), bool(L.get('leftnode', False)))]
+    swp = dict(num_nodes=M, quad_type=quad, node_type='ZP:' + key,
                do_coll_update=bool(L['collupdate']))
     if kind == 'multi':
         swp['Q1'] = 'ZQI'
@@ -79,12 +96,13 @@ def level_description(L, kind):
         swp['QE'] = 'ZQE'
     A = tuple(tuple(r) for r in L['A'])
     B = tuple(tuple(r) for r in L['B'])
+    g = tuple(L['g']) if any(L.get('g') or []) else None
     if kind == 'imex':
-        pc, pp = zp.ZpIMEX, dict(A=A, B=B, quad=int(L['c']))
+        pc, pp = zp.ZpIMEX, dict(A=A, B=B, quad=int(L['c']), g=g)
     elif kind == 'multi':
         pc, pp = zp.ZpMulti, dict(A=A, B=B)
     elif kind == 'expl':
-        pc, pp = zp.ZpLinear, dict(A=A, B=B if any(any(r) for r in B) else None, quad=int(L['c']))
+        pc, pp = zp.ZpLinear, dict(A=A, B=B if any(any(r) for r in B) else None, quad=int(L['c']), g=g)
     else:
         pc, pp = zp.ZpLinear, dict(A=A)
     return pc, pp, swp, key
@@ -97,7 +115,7 @@ def load_level(lvl, u0, U, tau):
     lvl.f[0] = P_.eval_f(lvl.u[0], 0.0)
     for m, um in enumerate(U):
         lvl.u[m + 1] = zp.zmesh(list(um))
-        lvl.f[m + 1] = P_.eval_f(lvl.u[m + 1], 0.0)
+        lvl.f[m + 1] = P_.eval_f(lvl.u[m + 1], lvl.time + lvl.dt * lvl.sweep.coll.nodes[m])
     if tau:
         lvl.tau = [zp.zmesh(list(t)) for t in tau]
     lvl.status.unlocked = True
@@ -191,7 +209,7 @@ def run_sweep_case(inst, p):
             out['defined'] = True
             out['sweep'] = vecs(L.u[1:])
             # after the sweep the stored right-hand sides must be those of the new values
-            fresh = [L.prob.eval_f(L.u[m], 0.0) for m in range(1, inst['M'] + 1)]
+            fresh = [L.prob.eval_f(L.u[m], L.time + L.dt * L.sweep.coll.nodes[m - 1]) for m in range(1, inst['M'] + 1)]
             if kind == 'multi':
                 out['f_fresh'] = all(a.comp1 == b.comp1 and a.comp2 == b.comp2 for a, b in zip(fresh, L.f[1:]))
             elif kind == 'imex':
